@@ -93,8 +93,17 @@ class HasAccessibles(HasProperties):
                 aobj = aobj.create_from_value(merged_properties[aname], value)
                 # replace the bare value by the created accessible
                 setattr(cls, aname, aobj)
-            else:
+            elif cls.__dict__.get(aname) is aobj:
                 aobj.merge(merged_properties[aname])
+            else:
+                # inherited from a base class or mixin: do not merge in place, as the same
+                # object might be merged with other properties in an other subclass
+                merged = aobj.copy()
+                merged.optional = aobj.optional
+                merged.merge(merged_properties[aname])
+                if repr(merged) != repr(aobj):
+                    aobj = merged
+                    setattr(cls, aname, aobj)
             accessibles[aname] = aobj
 
         # rebuild order:
